@@ -3,7 +3,7 @@ import functools
 
 from hypothesis import strategies as st
 
-from vf.harness import HarnessError, Task, drive, hx, same_by_name, unhx
+from vf.harness import HarnessError, Task, drive, hx, run_cases_optimized, same_by_name, unhx
 from vf.model import bls12381 as B
 from vf.model import blssig
 from vf.model.curves import BLS
@@ -34,7 +34,7 @@ MUTS = ("valid", "truncated", "extended_lead", "extended_trail", "extended_mid",
         "non_subgroup", "zero_component", "small_order", "kG+T", "identity_enc", "random")
 _REQ = ([f"pk:{m}" for m in MUTS] + [f"sig:{m}" for m in MUTS] +
         ["entry:KeyValidate", "entry:Verify", "entry:AggregateVerify", "entry:FastAggregateVerify",
-         "entry:PopVerify", "pairing_calls_checked", "accepted:honest", "pos:last", "pos:first",
+         "entry:PopVerify", "pairing_calls_checked", "python_-O:cases", "accepted:honest", "pos:last", "pos:first",
          "keyvalidate:True", "keyvalidate:False"] + [f"list:{m}" for m in (
              "none", "valid_zero_sum", "plus_torsion", "cancel_pair", "cancel_triple", "identity_extra", "small_order_pair",
              "malformed_member", "off_curve_member")] + ["accepted:honest_list"])
@@ -418,6 +418,10 @@ def t_total(ctx, shard, nshards, n):
         sk, pk, msg, sig = honest("pop", 0)
         ex.append({"suite": "pop", "pk": hx(lead + pk), "sig": hx(sig), "msg": hx(msg), "pk_mut": "extended_lead",
                    "sig_mut": "valid", "n": 2, "pos": 1, "honest": False})
+    if shard == 0:
+        # one case of every mutation kind on either side, and the mid-padded signatures, again in an interpreter
+        # started with -O (validation written as `assert` vanishes there)
+        run_cases_optimized(ctx, "C04", [{"sub": "total", "case": c} for c in ex[:2 * len(MUTS):3] + ex[2 * len(MUTS):]])
     drive(ctx, f"total{shard}", s_case(), lambda c: o_case(ctx, c), n, ex[shard::nshards], shrink=False)
 
 
